@@ -20,8 +20,8 @@ theorem streamFilters_name (d : Dict) (f : Stage) (h : d.get K_FILTER = some (.n
 
 theorem decoded_of_filters (ext : Ext) (s : Strm) (f : Stage) (fs : List Stage)
     (h : streamFilters s.dict = some ((f :: fs).map Stage.name)) :
-    decompressedContent ext s = filterLoop ext (decodeParms s.dict) ((f :: fs).map Stage.name) s.content ∧
-    getPlainContent ext s = filterLoop ext (decodeParms s.dict) ((f :: fs).map Stage.name) s.content := by
+    decompressedContent ext s = filterLoop ext (stageParms s.dict) 0 ((f :: fs).map Stage.name) s.content ∧
+    getPlainContent ext s = filterLoop ext (stageParms s.dict) 0 ((f :: fs).map Stage.name) s.content := by
   simp only [getPlainContent, decompressedContent, h, List.map]
   exact ⟨trivial, trivial⟩
 
@@ -48,19 +48,20 @@ theorem compress_rt_nofilter (ext : Ext) (deflate : Bytes → Bytes)
         = some (.name (Stage.name .flate)) := by
       simp only [setContent]
       rw [Dict.get_set_other_c09 _ _ _ _ n1, Dict.get_set_same_c09]; rfl
-    have hparms : decodeParms (setContent { s with dict := (s.dict.remove K_DECODEPARMS).set K_FILTER (.name F_FLATE) } (deflate s.content)).dict
+    have hparms : stageParms (setContent { s with dict := (s.dict.remove K_DECODEPARMS).set K_FILTER (.name F_FLATE) } (deflate s.content)).dict 0
         = none := by
-      simp only [setContent, decodeParms]
+      apply stageParms_none
+      simp only [setContent]
       rw [Dict.get_set_other_c09 _ _ _ _ n2, Dict.get_set_other_c09 _ _ _ _ n3, Dict.get_remove_same_c09 _ _ hnd]
-      rfl
     have hsf := streamFilters_name _ _ hf
     have := (decoded_of_filters ext _ .flate [] (by simpa using hsf)).2
-    rw [this, hparms]
+    rw [this]
     have ne : (deflate s.content).isEmpty = false := by
       cases hd : deflate s.content with
       | nil => exact absurd hd (hne _)
       | cons a b => rfl
-    simp [filterLoop, setContent, Stage.name, applyFilter, ne, hfl, decompressPredictor, Outcome.bind]
+    simp only [setContent] at hparms
+    simp [filterLoop, hparms, setContent, Stage.name, applyFilter, ne, hfl, decompressPredictor, Outcome.bind]
 
 /-- compress never changes what `get_plain_content` returns -/
 theorem compress_rt' (ext : Ext) (deflate : Bytes → Bytes)
@@ -107,22 +108,28 @@ theorem compress_stale_regression' :
   ⟨by rfl, by rfl,
    compress_rt_nofilter wExt wDeflate wInflate_wDeflate wDeflate_ne wStale (by unfold Dict.KeysNodup; decide) (by decide)⟩
 
-/-- F-C09-b: `Filter [/FlateDecode]`, `DecodeParms [<</Predictor 12 /Columns 2>>]` (array form) vs the dictionary form -/
+/-- the former F-C09-b witness: `Filter [/FlateDecode]`, `DecodeParms [<</Predictor 12 /Columns 2>>]` (array form)
+and the same stream with the dictionary form -/
 def wParms : Dict := [(K_PREDICTOR, .int 12), (K_COLUMNS, .int 2)]
 def wArr : Strm := { dict := [(K_FILTER, .arr [.name F_FLATE]), (K_DECODEPARMS, .arr [.dict wParms])], content := [120] }
 def wDict : Strm := { dict := [(K_FILTER, .arr [.name F_FLATE]), (K_DECODEPARMS, .dict wParms)], content := [120] }
 def wExt2 : Ext := { inflate := fun _ => [2, 1, 2, 2, 2, 2], lzw := fun _ x => x }
 
-theorem parms_array_witness' :
+theorem parms_array_regression' :
     encodeImage 1 2 [(.up, [1, 2]), (.up, [3, 4])] = [2, 1, 2, 2, 2, 2] ∧
     decompressedContent wExt2 wDict = .ok [1, 2, 3, 4] ∧
-    decompressedContent wExt2 wArr = .ok [2, 1, 2, 2, 2, 2] := by
+    decompressedContent wExt2 wArr = .ok [1, 2, 3, 4] := by
   have e : encodeImage 1 2 [(.up, [1, 2]), (.up, [3, 4])] = [2, 1, 2, 2, 2, 2] := by decide
-  refine ⟨e, ?_, by rfl⟩
-  have h : decompressedContent wExt2 wDict
-      = (decompressPredictor [2, 1, 2, 2, 2, 2] (some wParms)).bind (filterLoop wExt2 (some wParms) []) := by rfl
   have g : predGeom wParms = ⟨12, 2, 1, 8⟩ := by decide
-  have h2 : decompressPredictor [2, 1, 2, 2, 2, 2] (some wParms) = decodeFrame [2, 1, 2, 2, 2, 2] 1 2 := by
-    simp only [decompressPredictor, g]; rfl
-  rw [h, h2, ← e, frame_rt' 1 2 (by omega) (by decide) _ (by decide)]; rfl
+  have h2 : decompressPredictor [2, 1, 2, 2, 2, 2] (some wParms) = .ok [1, 2, 3, 4] := by
+    have : decompressPredictor [2, 1, 2, 2, 2, 2] (some wParms) = decodeFrame [2, 1, 2, 2, 2, 2] 1 2 := by
+      simp only [decompressPredictor, g]; rfl
+    rw [this, ← e, frame_rt' 1 2 (by omega) (by decide) _ (by decide)]; rfl
+  refine ⟨e, ?_, ?_⟩
+  · have h : decompressedContent wExt2 wDict
+        = (decompressPredictor [2, 1, 2, 2, 2, 2] (some wParms)).bind (filterLoop wExt2 (stageParms wDict.dict) 1 []) := by rfl
+    rw [h, h2]; rfl
+  · have h : decompressedContent wExt2 wArr
+        = (decompressPredictor [2, 1, 2, 2, 2, 2] (some wParms)).bind (filterLoop wExt2 (stageParms wArr.dict) 1 []) := by rfl
+    rw [h, h2]; rfl
 end Lopdf
